@@ -69,9 +69,22 @@ fn slice<'a>(data: &'a [u8], off: u64, size: u64, what: &str) -> R<&'a [u8]> {
     Ok(&data[off as usize..end as usize])
 }
 
+thread_local! {
+    /// while a file is being decoded: (address of its first byte, its length) and the CRC-protected
+    /// blocks seen so far as (absolute offset, data length)
+    static FILE_BASE: std::cell::Cell<Option<(usize, usize)>> = const { std::cell::Cell::new(None) };
+    static BLOCKS: std::cell::RefCell<Vec<(u64, u64)>> = const { std::cell::RefCell::new(Vec::new()) };
+}
+
 /// A block: `size` bytes followed by their CRC (big endian).
 pub fn block<'a>(data: &'a [u8], off: u64, size: u64, what: &str) -> R<&'a [u8]> {
     let body = slice(data, off, size, what)?;
+    if let Some((base, len)) = FILE_BASE.with(|b| b.get()) {
+        let p = body.as_ptr() as usize;
+        if p >= base && p + size as usize <= base + len {
+            BLOCKS.with(|b| b.borrow_mut().push(((p - base) as u64, size)));
+        }
+    }
     let crc = slice(data, off + size, 4, what)?;
     let stored = u32::from_be_bytes([crc[0], crc[1], crc[2], crc[3]]);
     let computed = crc32(body);
@@ -275,6 +288,8 @@ pub struct FileDec {
     pub packs: Vec<PackDec>,
     pub regions: Vec<Region>,
     pub notes: Vec<String>,
+    /// every CRC-protected block: (absolute offset of the data, data length); the CRC follows
+    pub blocks: Vec<(u64, u64)>,
 }
 
 // ---------------------------------------------------------------------------------------
@@ -306,6 +321,20 @@ pub fn decode_file(data: &[u8]) -> R<FileDec> {
 }
 
 pub fn decode_file_opts(data: &[u8], strict_container_size: bool) -> R<FileDec> {
+    FILE_BASE.with(|b| b.set(Some((data.as_ptr() as usize, data.len()))));
+    BLOCKS.with(|b| b.borrow_mut().clear());
+    let r = decode_file_inner(data, strict_container_size);
+    FILE_BASE.with(|b| b.set(None));
+    let mut blocks = BLOCKS.with(|b| std::mem::take(&mut *b.borrow_mut()));
+    blocks.sort();
+    blocks.dedup();
+    r.map(|mut fd| {
+        fd.blocks = blocks;
+        fd
+    })
+}
+
+fn decode_file_inner(data: &[u8], strict_container_size: bool) -> R<FileDec> {
     let mut cx = Ctx {
         data,
         regions: vec![],
@@ -369,6 +398,7 @@ pub fn decode_file_opts(data: &[u8], strict_container_size: bool) -> R<FileDec> 
         packs,
         regions: cx.regions,
         notes: cx.notes,
+        blocks: vec![],
     })
 }
 
